@@ -103,6 +103,11 @@ class Analysis:
                 obs.append(op)
             elif k == "route":
                 self.routes.append(RouteInfo(op, node, list(mw), list(obs)))
+            elif k == "routes":
+                # bulk import: every route of the module, with the chains as they are at this point
+                for cid, c in sorted(load_catalog().items()):
+                    if c.get("module") == op["module"] and c["kind"] == "handler":
+                        self.routes.append(RouteInfo({"k": "route", "c": cid}, node, list(mw), list(obs)))
             elif k == "fallback":
                 node.fallback = op
             elif k == "nest":
